@@ -145,13 +145,22 @@ class Deps:
         return I.V.bv('nfkd.len', 64)
 
 
+def _smear(I, st, p):
+    """a string helper wrote an unknown string into the phrase buffer at p: sizeof(polyseed_str) bytes from p (clipped to the object) become unknown"""
+    S = I.P.ditypes.get('typedef:polyseed_str', {}).get('size_bits', 0) // 8 or len(st.mem.objs[p.obj])
+    off = p.coff() or 0
+    cells = st.mem.wcells(p.obj)
+    for k in range(off, min(len(cells), off + S)):
+        cells[k] = [T(0)] * 8
+
+
 def string_summaries(I, summ):
     """summaries for helpers whose control depends on string contents"""
     def nfkd_lazy(I, st, args, inst):
         st.trace.append(('utf8_nfkd_lazy', repr(args[0]), repr(args[1]), inst.loc))
         p = args[1]
         if isinstance(p, Ptr) and p.obj in st.mem.objs:
-            st.mem.objs[p.obj] = [[T(0)] * 8 for _ in st.mem.objs[p.obj]]; st.mem.owned.add(p.obj)
+            _smear(I, st, p)
         return I.V.bv('nfkd.len', 64)
     summ['utf8_nfkd_lazy'] = nfkd_lazy
 
@@ -160,9 +169,11 @@ def string_summaries(I, summ):
         p = args[0]      # char** pos: advance by an unknown amount within the same object
         cur = I.load(st, p, 8, inst, as_ptr=True)
         if isinstance(cur, Ptr):
+            if cur.coff() is not None:
+                st.forced[('write_str-base', cur.obj)] = cur.coff()      # where the phrase buffer starts inside its object
             I.store(st, p, Ptr(cur.obj, BV([T(0)] * 64)), 8, inst)
             if cur.obj in st.mem.objs:
-                st.mem.objs[cur.obj] = [[T(0)] * 8 for _ in st.mem.objs[cur.obj]]; st.mem.owned.add(cur.obj)
+                _smear(I, st, Ptr(cur.obj, st.forced.get(('write_str-base', cur.obj), 0)))
         return None
     summ['write_str'] = write_str
 
